@@ -5,10 +5,11 @@ import xlexlib as X
 ID = "C29"
 COQ_FILES = ["Common/Corr.v", "Model/XLexer.v", "Model/XLexerTables.v", "Model/XLexerCorr.v",
              "Proofs/XLexerUtf8.v", "Proofs/XLexerScan.v", "Proofs/XLexerStep.v", "Proofs/XLexerLoop.v",
-             "Proofs/XLexer.v", "Proofs/XLexerParser.v", "Props/C29.v"]
+             "Proofs/XLexer.v", "Proofs/XLexerParser.v", "Proofs/XLexerBraces.v", "Props/C29.v"]
 PROPS = "Props/C29.v"
 THEOREMS = ["C29_tokens_tile", "C29_tokens_tile_refuted", "C29_tokens_tile_partial", "C29_loop_ends_partial",
-            "C29_tokens_tile_refuted_by_panic", "C29_xlex_total", "C29_prelude_reject_reports_error"]
+            "C29_tokens_tile_refuted_by_panic", "C29_xlex_total", "C29_prelude_reject_reports_error",
+            "C29_brackets_matched_or_reported"]
 AXIOMS_OK = []
 TRUSTED = ["hand-written Gallina mirror of experimental/internal/lexer (loop.go, lexer.go, string.go; number.go for the token "
            "boundary only) and of token.Stream.Push / token.Fuse as far as offsets and fusion go",
@@ -47,9 +48,9 @@ def run(ctx):
     maxlen = ctx.budget(3, 4)
     cases = list(X.CORPUS)
     cases += X.small_exhaustive(maxlen)
-    blen = ctx.budget(5, 7)
+    blen = ctx.budget(4, 6)
     cases += X.bracket_exhaustive(blen) if ctx.tier != "thorough" else X.bracket_exhaustive(blen, (b"(", b")", b"[", b"]", b"{", b"}"))
-    cases += X.random_rich(rng, ctx.budget(900, 30000))
+    cases += X.random_rich(rng, ctx.budget(700, 30000))
     files = X.testdata_files(REPO)
     chunks = []
     for _ in range(ctx.budget(40, 1500)):
@@ -86,6 +87,14 @@ def run(ctx):
             if "diags" in o and not X.prelude_rejected(o) and not any(d["level"] == 1 for d in o["diags"]) and covered(o) != len(c)]
     pouts = ctx.impl("xlexer", [{"mode": "lex", "s": (c + b" ").hex()} for c in need]) if need else []
     probe_cache = {c: (o.get("tokens") if "tokens" in o else None) for c, o in zip(need, pouts)}
+    # where the appended space makes the prelude decline the text (a NUL among the first two bytes), the uncovered
+    # tail is lexed on its own instead
+    outmap = dict(zip(cases, outs))
+    need2 = [c for c, o in zip(need, pouts) if "diags" in o and X.prelude_rejected(o)]
+    touts = ctx.impl("xlexer", [{"mode": "lex", "s": c[covered(outmap[c]):].hex()} for c in need2]) if need2 else []
+    for c, o in zip(need2, touts):
+        if "diags" in o and not o["diags"] and not (o.get("tokens") or []):
+            probe_cache[c] = "tail-unrecognized"
 
     def flushed_probe(s):
         return probe_cache.get(s)
